@@ -22,7 +22,7 @@ FUNCS = [
 
 
 def run_harness(rep, harness, tier, histories, only=None, env_extra=None, timeout=None):
-    funcs = [f for f in xh._func_lines(harness) if f.startswith("ob_")]
+    funcs = [f for f in xh._func_lines(harness) if f.startswith(("ob_", "kf_"))]
     if only:
         funcs = [f for f in funcs if only in f]
     timeout = timeout or (60 if tier == "quick" else 240)
@@ -31,6 +31,15 @@ def run_harness(rep, harness, tier, histories, only=None, env_extra=None, timeou
         env.update(env_extra or {})
         for res in xh.run_conditions(harness, funcs, timeout, env_extra=env):
             res["obligation"] = "%s/warm=%d" % (res["obligation"], h)
+            if ":kf_" in res["obligation"]:
+                # probe of a listed known finding: expected to be violated inside the listed predicate
+                if res["verdict"] == "violation" and res.get("known_label") in rep.known:
+                    rep.add_xh(res)
+                elif res["verdict"] == "violation":
+                    rep.add_xh(res)  # label not (or no longer) listed as open: a real violation
+                else:
+                    rep.engine_notes.append("known-finding probe %s: %s" % (res["obligation"], res["verdict"]))
+                continue
             rep.add_xh(res)
 
 
